@@ -36,7 +36,7 @@ Believes == s.started /\ ~(s.lost /\ s.notified = "yes")
 Unsure == s.started /\ s.lost /\ s.notified = "maybe"   \* the stub may or may not have been told yet
 Running == s.started /\ ~s.lost
 MustFail == {"unreachable", "refuse", "drop-connect", "drop-register", "drop-after-register",
-             "configure-rejected", "drop-in-configure"}
+             "configure-rejected", "configure-badmask", "drop-in-configure"}
 Healthy == {"healthy", "slow-configure"}
 
 TBegin == Go("scenarios", Fresh)
